@@ -6,6 +6,7 @@ package main
 import (
 	"fmt"
 	"go/token"
+	"sort"
 	"strings"
 
 	"golang.org/x/tools/go/ssa"
@@ -13,12 +14,13 @@ import (
 
 func init() {
 	register(&propDef{
-		id: "C01",
-		explain: "Structural necessary conditions of 'requests are framed as RFC 9112 says or rejected': (R1) exhaustive path exploration of the request head field loop (the function reachable from RequestHeader.Read that compares field names with Content-Length and Transfer-Encoding): every accepting return (nil error) reached after both a Content-Length and a Transfer-Encoding field, or after a Transfer-Encoding field whose value did not match 'chunked', has connectionClose = true; a second Content-Length or Transfer-Encoding field, and a Transfer-Encoding on an HTTP/1.0 request, never reach an accepting return; every error return has connectionClose = true; (R2) in the serve loop the handler is only dispatched on paths where every head/body reader returned nil, and no iteration follows an error response; (R3) the chunk-size line scanner never skips a byte without having compared it with CR and LF, and every rejection in the chunk decoder returns a non-nil error. Not decided: that method/target/body equal the RFC's for the longest accepted prefix; obs-fold and bare-LF treatment in the head (C09).",
+		id:      "C01",
+		explain: "Structural necessary conditions of 'requests are framed as RFC 9112 says or rejected': (R1) exhaustive path exploration of the request head field loop (the function reachable from RequestHeader.Read that compares field names with Content-Length and Transfer-Encoding): every accepting return (nil error) reached after both a Content-Length and a Transfer-Encoding field, or after a Transfer-Encoding field whose value did not match 'chunked', has connectionClose = true; a second Content-Length or Transfer-Encoding field, and a Transfer-Encoding on an HTTP/1.0 request, never reach an accepting return; every error return has connectionClose = true; (R2) in the serve loop the handler is only dispatched on paths where every head/body reader returned nil, and no iteration follows an error response; (R3) the chunk-size line scanner never skips a byte without having compared it with CR and LF, and every rejection in the chunk decoder returns a non-nil error; (R4) the functions the serve loop calls to read a request body report success without going through the framed-body reader only under a condition on the request's own framing (Expect: 100-continue deferral, declared length) - never on the method or on configuration alone, which would leave a declared body on the connection. Not decided: that method/target/body equal the RFC's for the longest accepted prefix; obs-fold and bare-LF treatment in the head (C09).",
 		run: func(p *Prog, r *Report) {
 			runC01Head(p, r)
 			p.serveLoop("C01").report(r, "C01")
 			runC01Chunk(p, r)
+			runC01BodyDispatch(p, r)
 		},
 	})
 }
@@ -365,4 +367,112 @@ func findCallIn(v ssa.Value) ssa.Value {
 		return c
 	}
 	return nil
+}
+
+// runC01BodyDispatch (R4): the body readers the serve loop calls directly (they
+// receive the connection reader and the size limit) either hand the reader to
+// a framed-body reader and return its verdict, return an error, or - when they
+// return nil on their own - do so under a condition that depends on the
+// framing the request declared (MayContinue / Content-Length). A success
+// return that depends only on the method or on configuration leaves a declared
+// body unread on the connection, where the loop parses it as the next request.
+func runC01BodyDispatch(p *Prog, r *Report) {
+	loop, _, _, why := findServeLoop(p)
+	if loop == nil {
+		r.Undecided("R4", "serve loop", why)
+		return
+	}
+	disp := map[*ssa.Function]bool{}
+	allCalls(loop, func(b *ssa.BasicBlock, c ssa.CallInstruction) {
+		f := c.Common().StaticCallee()
+		if f == nil || !inModule(f) || recvTypeName(f) != "Request" {
+			return
+		}
+		hasReader, hasInt := false, false
+		for _, prm := range f.Params {
+			if strings.HasSuffix(prm.Type().String(), "bufio.Reader") {
+				hasReader = true
+			}
+			if isIntType(prm.Type()) {
+				hasInt = true
+			}
+		}
+		res := f.Signature.Results()
+		if hasReader && hasInt && res.Len() == 1 && strings.HasSuffix(res.At(0).Type().String(), "error") {
+			disp[f] = true
+		}
+	})
+	r.Floor("R4", "body readers dispatched by the serve loop", len(disp), 2)
+	var fns []*ssa.Function
+	for f := range disp {
+		fns = append(fns, f)
+	}
+	sort.Slice(fns, func(i, j int) bool { return fns[i].Pos() < fns[j].Pos() })
+	for _, f := range fns {
+		var rd *ssa.Parameter
+		for _, prm := range f.Params {
+			if strings.HasSuffix(prm.Type().String(), "bufio.Reader") {
+				rd = prm
+			}
+		}
+		nret, nnil := 0, 0
+		for _, b := range f.Blocks {
+			rt, ok := b.Instrs[len(b.Instrs)-1].(*ssa.Return)
+			if !ok {
+				continue
+			}
+			rr := returnResults(rt)
+			if len(rr) != 1 {
+				continue
+			}
+			nret++
+			v := rr[0]
+			verdict, detail := false, ""
+			switch w := v.(type) {
+			case *ssa.Call:
+				// the verdict of a callee that was given the reader
+				for _, a := range w.Call.Args {
+					if a == ssa.Value(rd) {
+						verdict = true
+					}
+				}
+				detail = "returns the result of " + calleeName(w) + ", which is not handed the connection reader"
+			case *ssa.Const:
+				if w.Value == nil {
+					var atoms []string
+					for _, g := range guardsOf(b) {
+						atoms = append(atoms, g.Atom)
+						if strings.Contains(g.Atom, "MayContinue") || strings.Contains(strings.ToLower(g.Atom), "contentlength") {
+							verdict = true
+						}
+					}
+					detail = "returns nil without reading a body under: " + strings.Join(atoms, ", ")
+				}
+			default:
+				// an error value (package-level error, wrapped error): a rejection
+				verdict = globalOf(v) != "" || !isNilConst(v)
+				if _, isPhi := v.(*ssa.Phi); isPhi {
+					verdict = false
+					detail = "returns a merged value"
+				}
+			}
+			what := "rejection"
+			switch w := v.(type) {
+			case *ssa.Call:
+				what = "verdict of " + shortType(calleeName(w))
+			case *ssa.Const:
+				nnil++
+				what = fmt.Sprintf("own success return #%d", nnil)
+			default:
+				if g := globalOf(v); g != "" {
+					what = "rejection " + g
+				}
+			}
+			r.Check("R4", fmt.Sprintf("%s: %s is a rejection, the framed-body reader's verdict, or a success that depends on the declared framing", funcName(f), what), verdict, p.Pos(rt.Pos()),
+				detail+": a request that declares a body is reported as read although its body is still on the connection, so the next request is parsed from body bytes")
+		}
+		if nret == 0 {
+			r.Undecided("R4", funcName(f), "no return found")
+		}
+	}
 }
